@@ -434,8 +434,9 @@ func init() {
 		Title: "Quota of dead gateway instances is reclaimed; live instances are left alone",
 		Batches: []Batch{
 			{World: "rl", Profile: "c18-lifecycle", Quick: 300, Thor: 10000, PerProc: 1},
+			{World: "rl", Profile: "c18o-overlap", Quick: 400, Thor: 20000, PerProc: 1, FaultFree: true},
 		},
-		Rule: "each run = 1-2 replicas (store local / API-backed write-through / periodic), one upstream with an allocate and a count schema, 2-4+ instances with real client sets (heartbeats every second); 25-90 steps of allocate reports, acquire reports, clock advances (1-36 s), instances dying or being cut off, coming back with the old identity or joining anew, a replica cut off from the API server; at every boundary: an instance silent for > 36 s under a stable leader has no condition on record, an instance whose heartbeats arrive at the stable leader with gaps < 3 s keeps its condition; at the end a survivor must be granted the in-flight capacity not held by live instances; distinct = distinct trace hash; non-trivial = both clauses were evaluated. Instance names follow a drawn --client-id-prefix style (plain; with the in-memory store also host:port or longer than 63 characters). One joining instance in three sends its first acquire 50-1200 ms after its start, i.e. possibly before its first heartbeat, and may die at once One run in two the instances keep a client for the upstream's leader like the gateway's reconcile loop (every 2 s). Every delete the simulated API applies is logged with how long the deleting replica had led: a replica that has led for less than 2.5 s may not delete the condition of an instance that is alive and whose last heartbeat arrived (anywhere) less than 2.9 s before. With the API-backed store the API object of a condition is sometimes deleted out of band A step makes an instance unreachable for 1.05-1.9 s (one heartbeat lost, the following ones arrive again)",
+		Rule: "each run = 1-2 replicas (store local / API-backed write-through / periodic), one upstream with an allocate and a count schema, 2-4+ instances with real client sets (heartbeats every second); 25-90 steps of allocate reports, acquire reports, clock advances (1-36 s), instances dying or being cut off, coming back with the old identity or joining anew, a replica cut off from the API server; at every boundary: an instance silent for > 36 s under a stable leader has no condition on record, an instance whose heartbeats arrive at the stable leader with gaps < 3 s keeps its condition; at the end a survivor must be granted the in-flight capacity not held by live instances; distinct = distinct trace hash; non-trivial = both clauses were evaluated. Instance names follow a drawn --client-id-prefix style (plain; with the in-memory store also host:port or longer than 63 characters). One joining instance in three sends its first acquire 50-1200 ms after its start, i.e. possibly before its first heartbeat, and may die at once One run in two the instances keep a client for the upstream's leader like the gateway's reconcile loop (every 2 s). Every delete the simulated API applies is logged with how long the deleting replica had led: a replica that has led for less than 2.5 s may not delete the condition of an instance that is alive and whose last heartbeat arrived (anywhere) less than 2.9 s before. With the API-backed store the API object of a condition is sometimes deleted out of band A step makes an instance unreachable for 1.05-1.9 s (one heartbeat lost, the following ones arrive again). Profile c18o-overlap (one replica, bubble + cooperative scheduler over ratelimter.go): a count-strategy schema with global limit 3/10/20; a victim instance holds a count and has not sent a heartbeat for 3.5 s; its last acquire and its reclamation (the statements of the time-out sweep's goroutine) run as sim threads, the reclamation starting at a drawn statement of the acquire; the victim then stays silent, and 40 s later a survivor asking for the whole global limit must be granted it",
 		Real: rlReal, Stub: rlStub, Assume: append([]string{"'the cleanup period' is read as the longer of the two shipped mechanisms: 3 s heartbeat timeout + 30 s sweep + 2 s", "heartbeat arrival is observed on the simulated network"}, rlAssume...),
 	})
 	reg(&Check{ID: "SMOKE", Title: "debug", Batches: []Batch{{World: "gw", Profile: "smoke", Quick: 1, Thor: 1, PerProc: 1}}})
